@@ -238,8 +238,10 @@ Data ==
           ~Sample /\ ImportBits(r1, c1, t1, 3 - r1, (c1 + 1) % 3, t2)
     \/ \E r1 \in 1..2, c1 \in 0..2, t1 \in Times : ~Sample /\ ImportBits(r1, c1, t1, 3 - r1, c1, t1)
     \/ \E c \in Pick(Cols) : FVals # {} /\ \E v \in Pick(FVals) : SetVal(c, v)
-    \/ \E c1 \in Pick(Cols), c2 \in Pick(Cols) : FVals # {} /\ \E v1 \in Pick(FVals), v2 \in Pick(FVals) :
+    \/ \E c1 \in Pick(Cols), c2 \in Pick(Cols) : Sample /\ FVals # {} /\ \E v1 \in Pick(FVals), v2 \in Pick(FVals) :
           ImportVals(c1, v1, c2, v2)
+    \/ \E c1 \in 0..2, v1 \in FVals, v2 \in FVals : ~Sample /\ ImportVals(c1, v1, (c1 + 1) % 3, v2)
+    \/ \E c1 \in 0..2, v1 \in FVals : ~Sample /\ ImportVals(c1, v1, c1, Least(FVals))
 
 Attrs ==
     \/ \E r \in Pick(Rows), a \in Pick(1..2) : SetRowAttr(r, a)
